@@ -255,3 +255,43 @@ func VerifStreamTokens() {
 	}
 	vReach("tokens")
 }
+
+// VerifStreamMemory: the bounded-memory clause on a long stream. M tokens of TL bytes are taken
+// one after the other; every token is freed one token late (lagging Free) or at once. The reader
+// delivers chunks of CH bytes, the initial buffer size is solver-chosen. Results stay those of a
+// cursor over the data, and the memory held (current buffer + pooled blocks) stays below a bound
+// that does not depend on the stream length: the pool may warm up to a handful of blocks
+// (measured natively: <= 8 over 20000 bytes for every size/chunk/token length used here), while a
+// pool that stops recycling grows by one block per refill and crosses the bound within M tokens.
+func VerifStreamMemory() {
+	m := vParam("M", 40)
+	tl := vRange("tl", 1, vParam("TL", 3))
+	n := m * tl
+	data := vBytes("d", n)
+	size := vRange("size", 1, vParam("S", 4))
+	ch := vRange("ch", 1, vParam("CH", 3))
+	lag := vBool("lag")
+	z := NewStreamLexerSize(&vnFixedReader{data: append([]byte(nil), data...), ch: ch}, size)
+	prev := 0
+	for i := 0; i < m; i++ {
+		for j := 0; j < tl; j++ {
+			vAssert(z.Peek(0) == data[i*tl+j], "memory-run-byte")
+			z.Move(1)
+		}
+		b := z.Shift()
+		vAssert(string(b) == string(data[i*tl:(i+1)*tl]), "memory-run-token")
+		if lag {
+			z.Free(prev)
+			prev = len(b)
+		} else {
+			z.Free(len(b))
+		}
+		total := cap(z.buf)
+		for _, blk := range z.pool.pool {
+			total += cap(blk.buf)
+		}
+		vAssert(len(z.pool.pool) <= 8, "pool-grows-with-the-stream")
+		vAssert(total <= 8*(2*size+4*tl+8), "memory-grows-with-the-stream")
+	}
+	vReach("memory")
+}
